@@ -112,6 +112,17 @@ func (g *SymbolGraph) RemoveEdge(from, to graphs.SymbolKey, kind *SymbolEdgeKind
 		}
 	}
 
+	// deps/revDeps record that *some* edge exists between the pair;
+	// they may only be dropped once no edge of any kind remains from -> to
+	if inner, ok := g.edges[fromBase]; ok {
+		suffix := "::" + toBase
+		for k := range inner {
+			if strings.HasSuffix(k, suffix) {
+				return
+			}
+		}
+	}
+
 	if depsMap, ok := g.deps[fromBase]; ok {
 		delete(depsMap, to)
 		if len(depsMap) == 0 {
